@@ -119,6 +119,7 @@ static void _rexpand_dir(List list, char *name)
         pf = Malloc(sizeof(struct pcp_filename));
         pf->filename = Strdup(file);
         pf->file_specified_by_user = 0;
+        pf->is_directory = S_ISDIR(sb.st_mode);
 
         list_append(list, pf);
         if (S_ISDIR(sb.st_mode))
@@ -135,6 +136,7 @@ static void _rexpand_dir(List list, char *name)
     pf = Malloc(sizeof(struct pcp_filename));
     pf->filename = Strdup(EXIT_SUBDIR_FILENAME);
     pf->file_specified_by_user = 0;
+    pf->is_directory = 0;
     list_append(list, pf);
 }
 
@@ -158,6 +160,7 @@ List pcp_expand_dirs(List infiles)
         pf = Malloc(sizeof(struct pcp_filename));
         pf->filename = name;
         pf->file_specified_by_user = 1;
+        pf->is_directory = S_ISDIR(sb.st_mode);
 
         list_append(new, pf);
 
@@ -384,9 +387,27 @@ static int _pcp_sendfile (struct pcp_filename *pf, struct pcp_client *pcp)
 		xstrcat(&output_filename, pcp->host);
 	}
 
-	pcp_sendfile (pcp, pf->filename, output_filename);
+	if (!pcp_sendfile (pcp, pf->filename, output_filename))
+		return (-1);
 
 	return (0);
+}
+
+/*
+ * The receiver did not enter the directory just sent: pass over its
+ * contents, up to and including the flag that leaves it.
+ */
+static void _pcp_skip_subdir (ListIterator i)
+{
+	struct pcp_filename *pf;
+	int depth = 1;
+
+	while (depth > 0 && (pf = list_next (i))) {
+		if (strcmp(pf->filename, EXIT_SUBDIR_FILENAME) == 0)
+			depth--;
+		else if (pf->is_directory)
+			depth++;
+	}
 }
 
 int pcp_client(struct pcp_client *pcp)
@@ -395,8 +416,10 @@ int pcp_client(struct pcp_client *pcp)
     if (pcp_response(pcp->infd, pcp->host) >= 0) {
         struct pcp_filename *pf;
         ListIterator i = list_iterator_create (pcp->infiles);
-        while ((pf = list_next (i)))
-            _pcp_sendfile (pf, pcp);
+        while ((pf = list_next (i))) {
+            if (_pcp_sendfile (pf, pcp) < 0 && pf->is_directory)
+                _pcp_skip_subdir (i);
+        }
         list_iterator_destroy (i);
         return 0;
     }
